@@ -113,13 +113,21 @@ pub enum Outcome {
     Panic(PanicRec),
 }
 
+/// The variant name of an error's `Debug` text (`Io(Custom { .. })` -> `Io`)
+pub fn err_variant(e: &str) -> &str {
+    let end = e.find(|c: char| !(c.is_ascii_alphanumeric() || c == '_')).unwrap_or(e.len());
+    &e[..end]
+}
+
 impl Outcome {
     /// Equality used by the refinement check: same class and same canonical content; two
     /// panics are equal when they come from the same origin (keeps C07 orthogonal to C06/C08).
     pub fn same(&self, o: &Outcome) -> bool {
         match (self, o) {
             (Outcome::Ok(a), Outcome::Ok(b)) => a.h == b.h,
-            (Outcome::Err(a), Outcome::Err(b)) => a == b,
+            // two errors agree when they are the same variant: the payload (a message, a wrapped
+            // source, a list in hash order) is not a result the properties compare
+            (Outcome::Err(a), Outcome::Err(b)) => err_variant(a) == err_variant(b),
             (Outcome::Absent, Outcome::Absent) => true,
             (Outcome::Skipped(_), Outcome::Skipped(_)) => true,
             (Outcome::Panic(a), Outcome::Panic(b)) => a.origin == b.origin,
